@@ -7,6 +7,18 @@
    every task index below n is owned by exactly one worker; [collect_unordered] = results in completion order;
    [mirror] = the (B, A, s), (A, B, s) doubling of mixed_rank_graph; [final_table] = sorted median aggregate.
 
+   HONEST READING.  [C09_schedule], [C09_schedule_any], [C09_not_ready], [C09_pool_size] hold BY CONSTRUCTION of the pool
+   model: [complete] writes [f (nth tasks i)] into slot i and [f] is a pure Gallina function, so they say "filling every
+   slot fills every slot", for any order / worker count.  They do not prove anything about pathos; they STATE THE CONTRACT
+   (results by task index, nothing before the last completion) that the harness pool objects are held to on every
+   recorded call ([C09_schedule_check_sound]) and under which the real code is then run.  The risk the property names -
+   a scheduling-dependent pairing of results with combinations - is excluded by assumption in the model and is TESTED by
+   the harness (adversarial pools, real pools of 1..16 workers, fresh processes).  The theorems with content are
+   [C09_unordered_same] / [C09_unordered_same_final] (the aggregate is a function of the multiset of triplets: names travel
+   inside each triplet, the median is a function of the multiset) and their run-level corollaries.  "Identical across
+   fresh runs" has no theorem: in the model the table is a function of its inputs; hash seeds, process state and time
+   are outside it.  Level: proof (aggregation) + test (pool, reproducibility).
+
    PARTIAL with respect to the property text: the operating-system scheduler, pathos/multiprocess/dill and the purity
    of the per-pair scorer are not modelled (the scorer is a Gallina function [f]); the harness tests them. *)
 From Coq Require Import List Arith NArith ZArith Bool Permutation.
@@ -14,7 +26,8 @@ From Outrank Require Import Pipeline.Aggregate Pipeline.AggregateProofs Pipeline
 Import ListNotations.
 Local Open Scope nat_scope.
 
-(* any completion order: once every task has completed (in whatever order), the collected results are map f tasks *)
+(* [contract, true by construction of the model] any completion order: once every task has completed (in whatever
+   order), the collected results are map f tasks *)
 Theorem C09_schedule : forall (T R : Type) (f : T -> R) tasks sched,
   Permutation sched (seq 0 (length tasks)) -> amap f tasks sched = Some (map f tasks).
 Proof. exact @amap_schedule. Qed.
@@ -29,7 +42,8 @@ Theorem C09_not_ready : forall (T R : Type) (f : T -> R) tasks sched j,
   j < length tasks -> ~ In j sched -> amap f tasks sched = None.
 Proof. exact @amap_not_ready. Qed.
 
-(* any two pool sizes w, w', any assignment of the tasks to the workers, any interleaving of the workers *)
+(* [contract, true by construction; w and w' only name the lengths] any two pool sizes w, w', any assignment of the
+   tasks to the workers, any interleaving of the workers *)
 Theorem C09_pool_size : forall (T R : Type) (f : T -> R) tasks (w w' : nat) ws ws' s s',
   length ws = w -> length ws' = w' ->
   assignment (length tasks) ws -> assignment (length tasks) ws' ->
